@@ -1113,3 +1113,91 @@ pub fn check_c09_concurrent(h: &Hist) -> POut {
     }
     out
 }
+
+// ------------------------------------------------------------------------------------------
+// C04 / C05 under concurrency
+// ------------------------------------------------------------------------------------------
+
+/// Below capacity nothing is lost, also with several clients: at a quiescent checkpoint the last
+/// accepted write of a key (writes separated by quiescence, no later remove, not expired) is
+/// resident with its value.
+pub fn check_c04_concurrent(h: &Hist) -> POut {
+    let mut out = POut::new();
+    if !h.built_ok || h.plan.has_tag("lockstep") || !h.plan.has_tag("under_capacity") {
+        return out;
+    }
+    if h.plan.cfg.validator != Validator::Always || matches!(h.plan.cfg.keys, KeyMode::Collide { .. }) || h.over_capacity_seen() {
+        return out;
+    }
+    if h.ops.iter().any(|o| matches!(o.op, Op::Clear | Op::Close | Op::GetMut { write: true, .. })) || first_error_seq(h) != u64::MAX {
+        return out;
+    }
+    if h.ops.iter().any(|o| matches!(o.res, Some(Res::Bool(false))) && matches!(o.op, Op::Insert { .. })) {
+        return out; // the insert buffer overflowed: outside the premise
+    }
+    let mut per_key: BTreeMap<u64, Vec<&OpRec>> = BTreeMap::new();
+    for o in h.ops.iter().filter(|o| matches!(o.op, Op::Insert { .. } | Op::InsertIfPresent { .. } | Op::Remove { .. })) {
+        per_key.entry(o.op.key().unwrap()).or_default().push(o);
+    }
+    for cp in h.cps.iter().filter(|c| c.quiescent) {
+        let Some(es) = &cp.snap.entries else { continue };
+        for (k, ws) in per_key.iter() {
+            let before: Vec<&&OpRec> = ws.iter().filter(|o| o.inv_seq < cp.seq).collect();
+            if before.iter().any(|o| !o.returned() || o.ret_seq.unwrap() > cp.seq) {
+                continue;
+            }
+            let separated = before.windows(2).all(|p| h.quiescent_between(p[0].ret_seq.unwrap(), p[1].inv_seq).is_some());
+            if !separated {
+                continue;
+            }
+            let Some(last) = before.last() else { continue };
+            let (Op::Insert { ttl_ns, .. }, true) = (&last.op, last.ok_true()) else { continue };
+            if *ttl_ns > 0 && cp.now >= last.inv_now + ttl_ns {
+                continue; // may have expired
+            }
+            out.nontrivial = true;
+            let idx = h.index_of(*k);
+            match es.iter().find(|e| e.index == idx) {
+                Some(e) if Some(e.val.id) == last.val.map(|v| v.id) => {}
+                other => out.violations.push(violk("C04", "R-lost-concurrent", cp.seq, *k, "below capacity an accepted entry is missing at a quiescent point (several clients)", format!("checkpoint {}: key {} last written by {:?} (value {:?}) but the store has {:?}", cp.id, k, last.op, last.val, other.map(|e| e.val)))),
+            }
+        }
+    }
+    // nothing is refused or evicted below capacity
+    for c in h.cbs.iter().filter(|c| c.kind == CbKind::Reject && h.plan.cfg.callback == CallbackMode::Full) {
+        // a duplicate New for a key whose first New is still pending is legitimately refused
+        let Some(v) = c.val else { continue };
+        // ... and so is an insert racing a remove of the same key (the Delete may be queued behind it)
+        let dup = h.ops.iter().any(|o| o.op.key() == Some(v.key) && o.val.map(|x| x.id) != Some(v.id) && matches!(o.op, Op::Insert { .. } | Op::InsertIfPresent { .. } | Op::Remove { .. }) && o.inv_seq < c.seq && h.quiescent_between(o.inv_seq, c.seq).is_none());
+        if !dup {
+            out.violations.push(violk("C04", "R-rejected-below-capacity", c.seq, v.key, "an insert was rejected by the policy although the cache is below capacity", format!("on_reject for {:?} (cost {})", v, c.cost)));
+        }
+    }
+    out
+}
+
+/// An entry whose TTL elapsed long ago must not be resident at a quiescent point (fault-free
+/// plans): deadline + one bucket width + one cleanup interval.
+pub fn check_c05_concurrent(h: &Hist) -> POut {
+    let mut out = POut::new();
+    if !h.built_ok || h.plan.has_tag("lockstep") || h.plan.has_tag("faulty") {
+        return out;
+    }
+    if h.ops.iter().any(|o| matches!(o.op, Op::Jump { .. } | Op::Close)) {
+        return out;
+    }
+    let cleanup = h.plan.cfg.cleanup_ms * 1_000_000;
+    for cp in h.cps.iter().filter(|c| c.quiescent) {
+        let Some(es) = &cp.snap.entries else { continue };
+        for e in es.iter().filter(|e| e.ttl_ns > 0) {
+            let deadline = e.created_ns + e.ttl_ns;
+            if cp.now > deadline {
+                out.nontrivial = true;
+            }
+            if cp.now >= deadline + 1_000_000_000 + cleanup + 1_000_000 {
+                out.violations.push(violk("C05", "R2-not-reclaimed-concurrent", cp.seq, e.val.key, "expired entry still resident after bucket width + cleanup interval (several clients, fault-free)", format!("checkpoint {} t={}: {:?} deadline {} cleanup_ms {}", cp.id, cp.now, e.val, deadline, h.plan.cfg.cleanup_ms)));
+            }
+        }
+    }
+    out
+}
